@@ -1,6 +1,6 @@
 #!/bin/bash
 # usage: seedtest.sh <patch.diff> <prop> [prop...]   -- apply a seeded change to a scratch copy of /repo and run the checks on it
-P=$1; shift
+P=$(readlink -f $1); shift
 T=$(mktemp -d /tmp/casm-seed-XXXX)
 rsync -a --exclude target --exclude .git /repo/ $T/
 ( cd $T && patch -p1 -s < $P ) || { echo "PATCH DOES NOT APPLY"; rm -rf $T; exit 3; }
